@@ -157,6 +157,43 @@ def check(tier, seed):
             if impl.split(' ')[-1] != C.hexs(want):
                 res.violation('CFG-GNSS read-modify-write through enable/disable: payload differs from the original in other than that block\'s enable bit (or not at all)',
                               {'property': 'C08', 'input': desc, 'expected_payload': C.hexs(want), 'implementation_says': impl[-300:]}, 'c08-helper-edit')
+        # CFG-VALGET read-modify-write as the library's examples do it: items of a decoded response are edited (value, or the key
+        # parts when an item serves as template for a neighbouring key) and written back in a CFG-VALSET, in another order and
+        # together with new items: the VALSET payload is the 4-byte header followed by exactly those items in the order given
+        for _ in range(40 if tier == 'quick' else 1500):
+            n = rng.randrange(2, 7)
+            raw = [((rng.choice([2, 3, 4]) << 28) | (rng.randrange(256) << 16) | rng.randrange(4095), rng.randrange(200)) for _ in range(n)]
+            body = b''.join(k.to_bytes(4, 'little') + v.to_bytes([0, 1, 1, 2, 4, 8][(k >> 28) & 7], 'little') for k, v in raw)
+
+            def rmw(raw=raw, body=body):
+                vg = UbxCfgValGet.construct(bytearray(bytes(4) + body))
+                items = [vg.f._fields[f'data{j}'] for j in range(len(raw))]
+                order = list(range(len(raw)))
+                rng.shuffle(order)
+                picked = [items[j] for j in order]
+                edits = []
+                for it in picked:
+                    r = rng.random()
+                    if r < 0.3:
+                        it.value = (it.value + 1) % 100
+                    elif r < 0.5:
+                        it.item_id = (it.item_id + 1) & 0xFFF            # neighbouring key
+                    elif r < 0.6:
+                        it.group_id = (it.group_id + 1) & 0xFF
+                if rng.random() < 0.6:
+                    picked.insert(rng.randrange(len(picked) + 1), CK_.from_key(0x20110021, rng.randrange(10)))
+                toks = [K.item_token(it.group_id, it.item_id, it.bits, it.signed, it.value) for it in picked]
+                fr = UbxCfgValSetAction(list(picked))
+                fr.pack()
+                return toks, C.hexs(fr.data)
+            from ubxlib.cfgkeys import CfgKeyData as CK_
+            from ubxlib.ubx_cfg_valset import UbxCfgValSetAction
+            r_ = C.guarded(rmw)
+            if isinstance(r_, str):
+                cases.append(Case('valget-items-into-valset', 'valset -', r_, {'message': 'UbxCfgValSetAction', 'raw': [hex(k) for k, _ in raw]}, kind='valset/rmw'))
+            else:
+                toks, impl = r_
+                cases.append(Case('valget-items-into-valset', 'valset ' + ' '.join(toks), impl, {'message': 'UbxCfgValSetAction', 'items': toks}, kind='valset/rmw'))
         # CFG-VALSET: a value changed through the caller's item object after the frame was built is what gets encoded
         from ubxlib.cfgkeys import CfgKeyData as CK_
         from ubxlib.ubx_cfg_valset import UbxCfgValSetAction
